@@ -54,6 +54,16 @@ Definition SIG_LIMITER_SUPPRESSES_REPORT := 10%N.  (* a datagram over the source
 Definition SIG_LIMITER_ENDS_DATAGRAM := 11%N.   (* memcached-udp: a refusal by the limiter ends the datagram's command loop *)
 Definition SIG_TFTP_UPLOAD := 12%N.             (* tftp: an upload is not reported with the filename/mode/content of ITS transfer *)
 Definition SIG_SMTP_STALE_CHUNK := 9%N.      (* smtp: the reading before a828b58 - chunks of a transaction abandoned without RSET are reported with the next mail *)         (* ldap: not exactly one event per complete message *)
+(* telnet: exactly the behaviour before 1a2f0db (tn_run_before_1a2f0db) - bytes behind an
+   undecodable byte (or U+FFFD) wait for the next Read to return, so lines are reported late
+   or never; repaired in /repo, the signature stays so that a regression is reported under
+   its own name *)
+Definition SIG_TELNET_UNDECODABLE := 13%N.
+(* telnet: the stream decodes without any undecodable byte, holds non-ASCII characters or key
+   sequences, and the events are not those of the byte stream: a character or key sequence
+   was not put together again across a read boundary *)
+Definition SIG_TELNET_SPLIT_KEY := 14%N.
+Definition has_multibyte_key (s : bytes) : bool := existsb (fun b => (128 <=? b)%N || beq b ESC) s.
 Definition is_memcached (svc : N) : bool := beq svc SVC_MEMCACHED || beq svc SVC_MEMCACHED_UDP.
 Definition has_store (es : list event) : bool := existsb (fun e => beq (ev_ty e) EV_MC_STORE) es.
 
@@ -71,6 +81,8 @@ Definition case_sig (c : case) : N :=
   else if beq (c_svc c) (SEQ_BASE + SVC_TFTP)%N && obs_eqb (run_model (c_svc c) (c_segs c)) got then SIG_LIMITER_SUPPRESSES_REPORT
   else if beq (c_svc c) (SEQ_BASE + SVC_TFTP)%N then SIG_TFTP_UPLOAD
   else if (SEQ_BASE <=? c_svc c)%N then SIG_LIMITER_SUPPRESSES_REPORT
+  else if beq (c_svc c) SVC_TELNET && negb (tn_decodable (c_stream c)) && obs_eqb (tn_run_before_1a2f0db (c_segs c)) got then SIG_TELNET_UNDECODABLE
+  else if beq (c_svc c) SVC_TELNET && tn_decodable (c_stream c) && has_multibyte_key (c_stream c) then SIG_TELNET_SPLIT_KEY
   else if beq (c_svc c) SVC_TELNET then SIG_TELNET_LINES
   else if beq (c_svc c) SVC_LDAP then SIG_LDAP_MESSAGES
   else if beq (c_svc c) SVC_DNS && (match fst got with [] => true | _ => false end) then SIG_UDP_WRAPPED
